@@ -9,8 +9,11 @@ import (
 	"bytes"
 	"encoding/json"
 	"fmt"
+	"sort"
 	"strings"
+	"time"
 
+	fsmconfig "github.com/lidofinance/dc4bc/fsm/config"
 	sm "github.com/lidofinance/dc4bc/fsm/state_machines"
 	"github.com/lidofinance/dc4bc/fsm/types/requests"
 )
@@ -221,6 +224,40 @@ func (m *fsmMonitor) check(preBz []byte, inst *sm.FSMInstance, ev string, args [
 		if ev == "event_sig_proposal_decline_by_participant" && !isCancelledDkg(post.State) {
 			m.report("C05", "decline_cancels", "accepted decline did not cancel the round", idx, ev, args)
 		}
+		// whatever is accepted while the invitations are being answered (an answer, or an opening proposal that reaches a
+		// round which is open already): the phase is not begun again. "each of the n invited participants ... exactly once,
+		// ... no phase repeated; an expired deadline cancels for good"
+		sp := pre.Payload.SignatureProposalPayload
+		m.count("C05.invitation_kept")
+		var answered []int
+		for id, part := range q {
+			if part.Status != 0 {
+				answered = append(answered, id)
+			}
+		}
+		sort.Ints(answered)
+		hist := fmt.Sprintf("a round opened at %s for %s (deadline %s), answered so far by %v, accepted %s stamped %s",
+			relT(sp.CreatedAt), invitedShort(q), relT(sp.ExpiresAt), answered, ev, stampText(args))
+		var pq map[int]*mSigPart
+		if post.Payload != nil && post.Payload.SignatureProposalPayload != nil {
+			pq = post.Payload.SignatureProposalPayload.Quorum
+		}
+		for _, id := range answered {
+			if now, in := pq[id]; !in || now.Status != q[id].Status {
+				m.report("C05", "exactly_once", hist+": the answer recorded for participant "+fmt.Sprint(id)+" is gone, the invitation phase has begun again and the participant's contribution is taken a second time", idx, ev, args)
+				break
+			}
+		}
+		if a, b := invitedNames(q), invitedNames(pq); a != b {
+			now := invitedShort(pq)
+			if now == invitedShort(q) {
+				now += " with other keys"
+			}
+			m.report("C05", "invited_set", hist+": the invited set is now "+now+", the round no longer waits for exactly the participants it invited", idx, ev, args)
+		}
+		if ts, has := stampOf(args); has && sp.ExpiresAt.Before(ts) && !isCancelledDkg(post.State) {
+			m.report("C05", "deadline", hist+": the invitation deadline had passed and the round is not cancelled but "+post.State, idx, ev, args)
+		}
 	}
 	// C06: signing machine
 	if pre.State == "state_signing_await_partial_signs" && pre.Payload.SigningProposalPayload != nil {
@@ -260,8 +297,17 @@ func (m *fsmMonitor) check(preBz []byte, inst *sm.FSMInstance, ev string, args [
 				}
 				wantCollected := confirmed+1 == t
 				isCollected := post.State == "state_signing_partial_signs_collected"
-				if wantCollected != isCollected && !strings.Contains(post.State, "timeout") {
-					m.report("C06", "collected_iff_t", fmt.Sprintf("confirmed=%d t=%d n=%d -> %s", confirmed+1, t, n, post.State), idx, ev, args)
+				if wantCollected != isCollected {
+					what := "reconstruction started although fewer than t distinct participants have delivered"
+					if wantCollected {
+						what = "the t-th distinct contribution to the current batch did not start reconstruction"
+					}
+					m.report("C06", "collected_iff_t", fmt.Sprintf("%s: confirmed=%d t=%d n=%d -> %s (batch proposed at %s, this answer stamped %s, key generation ended at %s)",
+						what, confirmed+1, t, n, post.State, relT(sp.CreatedAt), stampText(args), relT(signingInitOf(sp))), idx, ev, args)
+				} else if !wantCollected && post.State != pre.State {
+					// fewer than t have delivered and no more than n-t have failed: the batch stays open for the others
+					m.report("C06", "batch_open", fmt.Sprintf("an accepted answer (the %d. of t=%d, %d failure reports, n=%d) ended the batch with %s: the contributions of the other participants can no longer bring it to t (batch proposed at %s, this answer stamped %s, key generation ended at %s)",
+						confirmed+1, t, failed, n, post.State, relT(sp.CreatedAt), stampText(args), relT(signingInitOf(sp))), idx, ev, args)
 				}
 			}
 		case "event_signing_partial_sign_error_received":
@@ -272,8 +318,11 @@ func (m *fsmMonitor) check(preBz []byte, inst *sm.FSMInstance, ev string, args [
 			}
 			wantCancel := failed+1 > n-t
 			isCancel := post.State == "state_signing_partial_signs_await_cancelled_by_error"
-			if wantCancel != isCancel && !strings.Contains(post.State, "timeout") {
+			if wantCancel != isCancel {
 				m.report("C06", "cancel_iff", fmt.Sprintf("failed=%d n-t=%d -> %s", failed+1, n-t, post.State), idx, ev, args)
+			} else if !wantCancel && post.State != pre.State {
+				m.report("C06", "batch_open", fmt.Sprintf("an accepted failure report (the %d., n-t=%d, %d of t=%d contributions) ended the batch with %s (this report stamped %s, key generation ended at %s)",
+					failed+1, n-t, confirmed, t, post.State, stampText(args), relT(signingInitOf(sp))), idx, ev, args)
 			}
 		default:
 			m.report("C06", "await_alphabet", "unexpected event accepted in await: "+ev, idx, ev, args)
@@ -307,6 +356,14 @@ func (m *fsmMonitor) check(preBz []byte, inst *sm.FSMInstance, ev string, args [
 		}
 	}
 	if pre.State == "stage_signing_idle" && ev == "event_signing_start" {
+		// "the round returns to idle and accepts the next proposal": an accepted proposal opens its batch - nobody has
+		// answered or failed yet, so the round is waiting for the partial signatures (t >= 1, n >= t)
+		m.count("C06.accepts_next")
+		if sp := post.Payload.SigningProposalPayload; sp != nil && pre.Payload.Threshold >= 1 && len(sp.Quorum) >= pre.Payload.Threshold &&
+			post.State != "state_signing_await_partial_signs" {
+			m.report("C06", "accepts_next", fmt.Sprintf("a proposal (stamped %s) accepted by the idle round left it in %s before anyone has answered or reported a failure: no batch can be collected (key generation ended at %s, latest stamp the signing machine keeps %s)",
+				stampText(args), post.State, relT(signingInitOf(sp)), relT(sp.UpdatedAt)), idx, ev, args)
+		}
 		// the collected response must only carry contributions of the new batch
 		if sp := post.Payload.SigningProposalPayload; sp != nil {
 			for id, part := range sp.Quorum {
@@ -316,4 +373,103 @@ func (m *fsmMonitor) check(preBz []byte, inst *sm.FSMInstance, ev string, args [
 			}
 		}
 	}
+}
+
+// stampOf: the CreatedAt a request carries (by argument kind)
+func stampOf(args []string) (time.Time, bool) {
+	if len(args) == 0 {
+		return time.Time{}, false
+	}
+	i := 3
+	switch args[0] {
+	case "sigInit", "sigPart":
+		i = 2
+	case "default":
+		i = 1
+	case "commit", "deal", "response", "masterKey", "dkgErr", "signErr", "signStart", "partialSigns":
+		i = 3
+	default:
+		return time.Time{}, false
+	}
+	if len(args) <= i {
+		return time.Time{}, false
+	}
+	return parseTimeTok(args[i]), true
+}
+
+func stampText(args []string) string {
+	if ts, ok := stampOf(args); ok {
+		return relT(ts)
+	}
+	return "(no stamp)"
+}
+
+// relT renders a stamp relative to the time base of the scripts (T0): T0+8d, T0+7ns, T0+8d+1ns
+func relT(t time.Time) string {
+	if t.IsZero() {
+		return "(zero time)"
+	}
+	d := t.UnixNano() - baseT
+	if d == 0 {
+		return "T0"
+	}
+	if d < 0 {
+		return fmt.Sprintf("T0%dns", d)
+	}
+	s := "T0"
+	if d/day > 0 {
+		s += fmt.Sprintf("+%dd", d/day)
+	}
+	if d%day > 0 {
+		s += fmt.Sprintf("+%dns", d%day)
+	}
+	return s
+}
+
+// signingInitOf: when the key generation of the round ended (the signing machine was initialised): its deadline minus the
+// signing deadline of the configuration
+func signingInitOf(sp *mSign) time.Time {
+	if sp == nil || sp.ExpiresAt.IsZero() {
+		return time.Time{}
+	}
+	return sp.ExpiresAt.Add(-fsmconfig.SigningConfirmationDeadline)
+}
+
+func invitedNames(q map[int]*mSigPart) string {
+	ids := make([]int, 0, len(q))
+	for id := range q {
+		ids = append(ids, id)
+	}
+	sort.Ints(ids)
+	var b strings.Builder
+	b.WriteString("{")
+	for i, id := range ids {
+		if i > 0 {
+			b.WriteString(" ")
+		}
+		if q[id] == nil {
+			fmt.Fprintf(&b, "%d:nil", id)
+			continue
+		}
+		fmt.Fprintf(&b, "%d:%s/%x/%x", id, q[id].Username, q[id].PubKey, q[id].DkgPubKey)
+	}
+	b.WriteString("}")
+	return b.String()
+}
+
+func invitedShort(q map[int]*mSigPart) string {
+	ids := make([]int, 0, len(q))
+	for id := range q {
+		ids = append(ids, id)
+	}
+	sort.Ints(ids)
+	var parts []string
+	for _, id := range ids {
+		if q[id] == nil {
+			parts = append(parts, fmt.Sprintf("%d:nil", id))
+		} else {
+			parts = append(parts, fmt.Sprintf("%d:%s", id, q[id].Username))
+		}
+	}
+	return "{" + strings.Join(parts, " ") + "}"
 }
